@@ -72,8 +72,8 @@ pub fn scenario(initial: usize, max: usize, n: usize, gap_us: u64, idx: usize) -
     let h = GateHandler { obs: obs.clone() };
     let a2 = addr.clone();
     let th = std::thread::spawn(move || varlink::listen(h, &a2, &cfg));
-    if !wait_until(|| path.exists(), Duration::from_secs(5)) {
-        return Err("listen() did not create its socket".into());
+    if !wait_listening(&addr, Duration::from_secs(5)) {
+        return Err("listen() did not start listening on its socket within 5 s".into());
     }
     let settle = Duration::from_secs(3);
     let mut conns: Vec<Option<UnixStream>> = Vec::new();
